@@ -66,7 +66,8 @@ def path(ctx, cfg):
     net, used = mc.build_network(cfg, placement, extras)
     T = len(used)
     before = mc.snapshot(net.G)
-    target, tabs = mc.make_target(ctx, net, used, "lazy")
+    # with several topologies the target dictionary is filled in the reverse of the names order (any order is legal)
+    target, tabs = mc.make_target(ctx, net, used, "lazy", reverse_dict=len(used) > 1)
     mc.install_repeat_pruning(ctx)
     obj = ctx.guard("constructor-raised", MarkovChainMonteCarloRewiring,
                     {TN.NETWORK: net, TN.EJKS: target, TN.CONVERGENCE_LIMIT: 0, TN.SEARCH_LIMIT: cfg["search"]})
